@@ -346,6 +346,29 @@ val hl_insert : 'a1 hlist -> 'a1 -> prio -> 'a1 hlist
 
 val hl_remove : ('a1 -> 'a1 -> bool) -> 'a1 hlist -> 'a1 -> 'a1 hlist
 
+type 'v spm = { sp_sparse : n list; sp_dense : 'v list; sp_indices : n list }
+
+val sp_empty : 'a1 spm
+
+type 'a out =
+| Val of 'a
+| Panic
+| UB of n
+
+val sp_get : 'a1 spm -> n -> 'a1 option out
+
+val sp_insert : 'a1 spm -> n -> 'a1 -> ('a1 option * 'a1 spm) out
+
+val sp_remove : 'a1 spm -> n -> ('a1 option * 'a1 spm) out
+
+val sp_keys : 'a1 spm -> n list
+
+val sp_values : 'a1 spm -> 'a1 list
+
+val strip_max : n list -> n list
+
+val sp_shrink : 'a1 spm -> 'a1 spm
+
 type outcome =
 | Finished
 | Aborted
